@@ -23,6 +23,7 @@ import (
 	"net/url"
 	"os"
 	"path/filepath"
+	"slices"
 	"strings"
 	"sync"
 
@@ -323,6 +324,13 @@ func (t *cacheTransport) fetchOffline(cacheFile string) (*http.Response, error) 
 	if err != nil {
 		return nil, fmt.Errorf("listing %q for offline cache: %w", cacheDir, err)
 	}
+
+	// Only advertised entries count. The directory also holds the temporary files of downloads that
+	// are in flight, were interrupted or failed half way (retrieveAndSaveFile creates them next to the
+	// entries): such a file may be the newest one and hold a partial body.
+	des = slices.DeleteFunc(des, func(de os.DirEntry) bool {
+		return strings.HasSuffix(de.Name(), ".tmp")
+	})
 
 	if len(des) == 0 {
 		return nil, fmt.Errorf("no offline cached entries for %s", cacheDir)
